@@ -54,6 +54,10 @@ def read_model_parameters(
                 soil.profile.loc[i, "dz"] += 0.1
                 soil.fill_nan()
                 break
+        else:
+            # every compartment already has its maximum thickness: extend the bottom one
+            soil.profile.loc[soil.profile.index[-1], "dz"] += 0.1
+            soil.fill_nan()
 
     # TODO: Why all these commented lines? The model does not allow rotations now?
     ###########
